@@ -295,7 +295,7 @@ func runC10(c *ev.Ctx) {
 	p3 := pathAlphabet(k)
 	pDeep := pathAlphabet(kDeep)
 	c.Rule(fmt.Sprintf("trees = every list/object-rooted tree with <= %d nodes, depth <= 3 over leaves {nil,1,\"s\"} and keys {a,b,0,1} (numeric-looking keys make a '.'/'#' mix-up visible), and every tree with <= 4 nodes over the multi-byte / multi-character / empty keys {U+00E9, ab, \"\"} with the matching path alphabet (a path cannot address the empty key: every path with an empty segment must stay Undefined); paths per tree = every resolvable path, every one-step corruption of each (segment dropped, sigil swapped, body emptied, index shifted to n+1/n+2/n+7/-1/non-numeric/n+2^32/n+2^63/n+2^64/n+2^65, key misspelt, leading sigil dropped, trailing sigil, segment appended) and all %d strings of <= %d segments over {.,#} x {a,b,0,1,2,10,x,empty} with and without the leading sigil; additionally all %d strings of <= %d segments on every tree with <= %d nodes. Oracle: harness tokenizer + step-by-step navigation with Get/KeyExists/Count only. Non-trivial = distinct (tree, path) pair whose path has >= 2 segments and resolves, or is a one-step corruption of a resolvable path.", nodes, len(p3), k, len(pDeep), kDeep, nodesDeep))
-	c.Assume("tree keys are free of '.' and '#'; index spellings with sign, leading zeros, hex or underscores are outside the path grammar of the statement and not generated (except -1 and non-numeric bodies, which must be Undefined)")
+	c.Assume("tree keys are free of '.' and '#'; index spellings with sign, leading zeros, hex or underscores are outside the path grammar of the statement: whether they resolve is not judged, only that GetTF and TypeOfTF agree on them (30 spellings x 8 path shapes)")
 	stop := func() bool { return c.Expired() || c.TooMany() }
 	en := spec.NewEnum(c10Leaves, c10Keys)
 	runOn := c10Run(c, stop)
@@ -304,9 +304,74 @@ func runC10(c *ev.Ctx) {
 	runOn(en2, 4, p2, "multi-byte, multi-character and EMPTY keys {U+00E9, ab, \"\"}: all trees x (own paths + corruptions + all paths of <= 3 segments)", true)
 	runOn(en, nodes, p3, "all trees x (own paths + corruptions + all paths of <= 3 segments)", true)
 	runOn(en, nodesDeep, pDeep, "small trees x all paths of <= 4 segments", false)
+	c10Spellings(c)
 	if c.Expired() {
 		c.Cut("deadline reached")
 	}
+}
+
+// c10Spellings: index segments in spellings the statement's grammar does not name (leading zeros, sign, hex/octal/
+// binary prefixes, underscores, blanks, exponent, full-width digits). Whether such a segment resolves is left
+// open - but the statement's two cases are exhaustive for EVERY path string: either the path resolves (GetTF returns
+// a value and TypeOfTF reports that value's kind) or it does not (GetTF panics and TypeOfTF is Undefined). The two
+// readers must therefore agree on every spelling, and a resolved spelling must return an element of the list.
+func c10Spellings(c *ev.Ctx) {
+	spell := []string{"00", "01", "07", "08", "09", "010", "011", "0x1", "0X1", "0xA", "0b1", "0B10", "0o7", "0_1", "1_0", "+1", "+0", "-0", "-1",
+		" 1", "1 ", "1e0", "1.0", "0x", "0b", "1__0", "_1", "1_", string(rune(0xFF11)), string(rune(0x661))}
+	elems := make([]interface{}, 12)
+	for i := range elems {
+		switch i % 3 {
+		case 0:
+			elems[i] = at.NewObject("k", i, "l", at.NewList(i))
+		case 1:
+			elems[i] = at.NewList(i, at.NewObject("k", i))
+		default:
+			elems[i] = i
+		}
+	}
+	l := at.NewList(elems...)
+	root := at.NewObject("r", l)
+	before := root.Clone()
+	n := 0
+	for _, sp := range spell {
+		for _, shape := range []struct {
+			path string
+			on   interface{}
+		}{{"#" + sp, l}, {"#" + sp + ".k", l}, {"#" + sp + "#0", l}, {"#" + sp + ".l#0", l}, {".r#" + sp, root}, {".r#" + sp + "#1.k", root}, {"#0.l#" + sp, l}, {"#1#" + sp, l}} {
+			n++
+			c.Eval(1)
+			c.Nontrivial("spelling/" + shape.path)
+			var got interface{}
+			var ty at.Type
+			var gp, tp bool
+			switch r := shape.on.(type) {
+			case at.List:
+				gp, _ = try(func() { got = r.GetTF(shape.path) })
+				tp, _ = try(func() { ty = r.TypeOfTF(shape.path) })
+			case at.Object:
+				gp, _ = try(func() { got = r.GetTF(shape.path) })
+				tp, _ = try(func() { ty = r.TypeOfTF(shape.path) })
+			}
+			msg := ""
+			switch {
+			case tp:
+				msg = "TypeOfTF panicked"
+			case gp && ty != at.TypeUndefined:
+				msg = fmt.Sprintf("GetTF panics but TypeOfTF reports kind %d", ty)
+			case !gp && ty == at.TypeUndefined:
+				msg = fmt.Sprintf("GetTF returns %v but TypeOfTF reports Undefined", got)
+			case !gp && kindOfValue(got) != ty:
+				msg = fmt.Sprintf("GetTF returns %v (kind %d) but TypeOfTF reports kind %d", got, kindOfValue(got), ty)
+			case !root.Equals(before):
+				msg = "the tree was modified by a read"
+			}
+			if msg != "" {
+				path := shape.path
+				c.Violate(ev.Violation{Sig: "tfread/readers-disagree", Msg: fmt.Sprintf("path %q on a list of 12: %s", path, msg), Witness: map[string]string{"path": path}}, nil)
+			}
+		}
+	}
+	c.Set("index_spellings", map[string]interface{}{"spellings": spell, "paths": n, "oracle": "GetTF and TypeOfTF agree (both resolve to the same kind, or panic / Undefined); tree unchanged"})
 }
 
 func c10Run(c *ev.Ctx, stop func() bool) func(en *spec.Enum, maxNodes int, paths []string, tag string, own bool) {
